@@ -674,6 +674,8 @@ pub struct CheckScript {
     /// The installer hands its LAST progress value over (creates the report future and polls it once)
     /// but does not wait for the observer before finishing.
     pub detach_last_progress: bool,
+    /// perform_reboot returns an error (the device did not reboot)
+    pub reboot_fails: bool,
 }
 impl Default for CheckScript {
     fn default() -> Self {
@@ -688,6 +690,7 @@ impl Default for CheckScript {
             reboot_needed: false,
             reboot_allowed: vec![],
             detach_last_progress: false,
+            reboot_fails: false,
         }
     }
 }
